@@ -132,11 +132,73 @@ func translateDecoderReset(repo string) (map[string]string, error) {
 	if loops != 1 {
 		return nil, fmt.Errorf("PeekFileId: expected exactly one loop, found %d", loops)
 	}
+	// encoder: does compressTimestampIntoHeader keep the last written timestamp and refuse to compress outside its window?
+	ef, err := parser.ParseFile(fset, filepath.Join(repo, "encoder/encoder.go"), nil, 0)
+	if err != nil {
+		return nil, err
+	}
+	ct := methodOf(ef, "Encoder", "compressTimestampIntoHeader")
+	if ct == nil {
+		return nil, fmt.Errorf("Encoder.compressTimestampIntoHeader not found")
+	}
+	cta, _ := assignedPaths(ct.Body)
+	if !cta["e.timestampReference"] {
+		return nil, fmt.Errorf("compressTimestampIntoHeader no longer assigns e.timestampReference: the encoder model must be revisited")
+	}
+	tracksLast := false
+	if cta["e.lastTimestamp"] {
+		// the guard `(timestamp - lastTimestamp) > proto.CompressedTimeMask` followed by `return false`
+		ast.Inspect(ct.Body, func(n ast.Node) bool {
+			is, ok := n.(*ast.IfStmt)
+			if !ok {
+				return true
+			}
+			be, ok := is.Cond.(*ast.BinaryExpr)
+			if !ok || be.Op != token.GTR || selectorPath(be.Y) != "proto.CompressedTimeMask" {
+				return true
+			}
+			pe, ok := be.X.(*ast.ParenExpr)
+			if !ok {
+				return true
+			}
+			sub, ok := pe.X.(*ast.BinaryExpr)
+			if ok && sub.Op == token.SUB && selectorPath(sub.X) == "timestamp" && selectorPath(sub.Y) == "lastTimestamp" {
+				tracksLast = true
+			}
+			return true
+		})
+		if !tracksLast {
+			return nil, fmt.Errorf("compressTimestampIntoHeader assigns e.lastTimestamp but the window test is not recognised")
+		}
+	}
+	// encoder/validator.go: how many times does Validate return errNoFields (once before, once after the developer-field filter)?
+	vf, err := parser.ParseFile(fset, filepath.Join(repo, "encoder/validator.go"), nil, 0)
+	if err != nil {
+		return nil, err
+	}
+	vm := methodOf(vf, "messageValidator", "Validate")
+	if vm == nil {
+		return nil, fmt.Errorf("messageValidator.Validate not found")
+	}
+	noFieldsReturns := 0
+	ast.Inspect(vm.Body, func(n ast.Node) bool {
+		if rs, ok := n.(*ast.ReturnStmt); ok && len(rs.Results) == 1 {
+			if id, ok := rs.Results[0].(*ast.Ident); ok && id.Name == "errNoFields" {
+				noFieldsReturns++
+			}
+		}
+		return true
+	})
+	if noFieldsReturns < 1 || noFieldsReturns > 2 {
+		return nil, fmt.Errorf("Validate: %d returns of errNoFields, expected 1 or 2", noFieldsReturns)
+	}
 	var sb strings.Builder
 	sb.WriteString("(* GENERATED by fit2coq from decoder/decoder.go (Decoder.reset, CheckIntegrity) -- do not edit *)\n")
 	fmt.Fprintf(&sb, "Definition reset_clears_definitions : bool := %s.\n", b(clearsDefs))
 	fmt.Fprintf(&sb, "Definition reset_clears_developer_tables : bool := %s.\n", b(clearsDev))
 	fmt.Fprintf(&sb, "Definition integrity_drops_buffer : bool := %s.\n", b(dropsBuf))
 	fmt.Fprintf(&sb, "Definition peekfileid_bounded : bool := %s.\n", b(bounded))
+	fmt.Fprintf(&sb, "(* encoder/validator.go Validate *)\nDefinition validator_rechecks_empty : bool := %s.\n", b(noFieldsReturns == 2))
+	fmt.Fprintf(&sb, "(* encoder/encoder.go compressTimestampIntoHeader *)\nDefinition encoder_tracks_last_timestamp : bool := %s.\n", b(tracksLast))
 	return map[string]string{"DecoderReset.v": sb.String()}, nil
 }
